@@ -1,4 +1,5 @@
 import DirectVerif.Lemmas.C15Engine
+import DirectVerif.Lemmas.C15Prune
 /-!
 # C15 (continued) — the code around the checkpoint core
 
@@ -504,5 +505,54 @@ theorem resume_equal_iff_aligned (k t : Nat) (hk : 2 ≤ k) :
           (t + 1 + (k - (t + 1) % k))).theta = X
   generalize (t + 1) % k = q
   omega
+
+/-! ## save routines that delete older checkpoints (`max_to_keep`-style pruning) -/
+
+/-- **Crash safety with pruning**: for *any* statement table accepted by `wfSaveX` (a well-formed core followed by
+pruning statements only: nothing is deleted before `last_model.txt` has been switched to the new checkpoint), any
+directory, label, chunking, any set `dels` of labels whose `model_<j>.pt` the pruning removes — as long as it does not
+contain the new label — and any crash point (between and after the deletions included): `load('latest')` gives what it
+gave before, or the new checkpoint. -/
+theorem crash_safe_with_pruning {S} (decode : Bytes → Option S) (t : List Stmt) (hwf : wfSaveX t = true)
+    (d : Dir) (it : Nat) (chunks : List Bytes) (s : S) (hdec : decode chunks.flatten = some s)
+    (dels : List Int) (hd : (it : Int) ∉ dels) (n : Nat) (m : Option Nat) :
+    let d' := run d (crashAt (opsOfX t it chunks dels) n m)
+    loadLatest decode d' = loadLatest decode d ∨ loadLatest decode d' = .ok it s :=
+  crash_safe_of_wfX decode t hwf d it chunks s hdec dels hd _ (crashAt_crashOf _ n m)
+
+/-- … and the completed save (deletions included) is what `load('latest')` returns -/
+theorem save_with_pruning_then_load {S} (decode : Bytes → Option S) (t : List Stmt) (hwf : wfSaveX t = true)
+    (d : Dir) (it : Nat) (chunks : List Bytes) (s : S) (hdec : decode chunks.flatten = some s)
+    (dels : List Int) (hd : (it : Int) ∉ dels) :
+    loadLatest decode (run d (opsOfX t it chunks dels)) = .ok it s :=
+  save_then_load_of_wfX decode t hwf d it chunks s hdec dels hd
+
+/-- every well-formed table without pruning is a well-formed table with pruning; pruning at the end is accepted, pruning
+between the two renames (or anywhere before the pointer moved) is rejected -/
+theorem wf_tables_with_pruning :
+    wfTables.all wfSaveX = true ∧ wfSaveX (saveTable ++ [.prune]) = true ∧
+    wfSaveX [.openW .modelTmp, .writePayload .modelTmp, .closeF .modelTmp, .replace .modelTmp .model, .prune,
+             .openW .lastTmp, .writeLabel .lastTmp, .closeF .lastTmp, .replace .lastTmp .last] = false ∧
+    wfSaveX (.prune :: saveTable) = false := by
+  decide
+
+/-- **pruning before the pointer moved is not crash safe** (keep only the newest checkpoint, pruning right after the new
+file was renamed into place): after a complete save at 5, the save at 12 deletes `model_5.pt` while `last_model.txt` still
+names it — a crash right there makes `load('latest')` raise FileNotFoundError although `model_12.pt` is complete.  And
+**the new label must not be among the deleted ones**: "keep the highest label" after re-saving a lower one (a restart over
+an old directory) deletes the checkpoint just written. -/
+theorem prune_before_pointer_violates :
+    let tP : List Stmt := [.openW .modelTmp, .writePayload .modelTmp, .closeF .modelTmp, .replace .modelTmp .model, .prune,
+                           .openW .lastTmp, .writeLabel .lastTmp, .closeF .lastTmp, .replace .lastTmp .last]
+    let d := run Dir.empty (saveOps 5 (chunk (toyEncode 1 10) [3, 4]))
+    loadLatest toyDecode d = .ok 5 1 ∧
+    loadLatest toyDecode (run d (crashAt (opsOfX tP 12 (chunk (toyEncode 2 10) [3, 4]) [5]) 7 none)) = .error .fileNotFound ∧
+    loadLatest toyDecode (run d (opsOfX tP 12 (chunk (toyEncode 2 10) [3, 4]) [5])) = .ok 12 2 ∧
+    -- a well-formed table, but the pruning rule deletes the label just saved (12 exists, 5 is re-saved, "keep the highest")
+    loadLatest toyDecode (run (run d (saveOps 12 (chunk (toyEncode 2 10) [3, 4])))
+      (opsOfX (saveTable ++ [.prune]) 5 (chunk (toyEncode 3 10) [3, 4]) [5])) = .error .fileNotFound := by
+  decide
+
+example : wfSaveX (saveTable ++ [.prune]) = true ∧ ((7 : Nat) : Int) ∉ ([5, 6] : List Int) := by decide
 
 end DirectVerif.C15
